@@ -987,6 +987,13 @@ pub enum CState {
     /// connected and a full request sent, but never accepted: the server runs with max_connections 1
     /// and another connection holds the slot
     Queued,
+    /// connections whose handler ended BEFORE the signal: after garbage (the server closed it), after a
+    /// panic in the handler task, after the client closed; and one whose accept failed a moment before
+    /// the signal (the listener is in its back-off sleep)
+    EndedBad,
+    EndedPanic,
+    EndedClosed,
+    AcceptFailed,
     /// a client that never pauses: one command is held in the store when the signal fires, 16 more
     /// requests are already on the wire, and after the release the client keeps at least 16
     /// requests ahead of the replies it has read for as long as the server answers
@@ -1020,6 +1027,7 @@ fn pending_events(st: &CState) -> Vec<&'static str> {
 /// `at_limit`: the server runs with max_connections equal to the number of connections of the case,
 /// so the listener is parked waiting for a slot (not in accept) when the signal fires.
 pub fn c16_case(dir: &Path, states: &[CState], order: &[usize], at_limit: bool) -> Result<String, V> {
+    crate::iohook::accept_abort_clear();
     let maxc = if states.contains(&CState::Queued) { 1 } else if at_limit { states.len() } else { 8 };
     let mut srv = Srv::start(dir, &SrvCfg { max_connections: maxc, max_file_size: 1 << 31, gated: true }).map_err(mach)?;
     let nc = states.len();
@@ -1059,6 +1067,45 @@ pub fn c16_case(dir: &Path, states: &[CState], order: &[usize], at_limit: bool) 
                     let b = set_req(c).encode();
                     s.write_all(&b[..*j]).map_err(|e| mach(e.to_string()))?;
                 }
+                CState::EndedBad => {
+                    s.write_all(b"!garbage, not RESP\r\n").map_err(|e| mach(e.to_string()))?;
+                    let (b, how) = read_to_end(&mut s, T20);
+                    received[c].extend_from_slice(&b);
+                    if how == "timeout" {
+                        return Err(mach("setup: the server did not close a connection that sent garbage"));
+                    }
+                }
+                CState::EndedPanic => {
+                    let clones0 = srv.gate.clones();
+                    if !srv.gate.wait_clones(clones0 + 1, T20) {
+                        return Err(mach("setup: connection not accepted"));
+                    }
+                    srv.quiesce(e0);
+                    srv.gate.arm_clone_panic(1);
+                    s.write_all(&set_req(c).encode()).map_err(|e| mach(e.to_string()))?;
+                    let (b, how) = read_to_end(&mut s, T20);
+                    received[c].extend_from_slice(&b);
+                    if how == "timeout" {
+                        return Err(mach("setup: the connection whose handler panicked stayed open"));
+                    }
+                }
+                CState::EndedClosed => {
+                    let n0 = srv.gate.n_ops();
+                    s.write_all(&Req::Set(format!("i{}", c).into_bytes(), b"1".to_vec()).encode()).map_err(|e| mach(e.to_string()))?;
+                    if !srv.gate.wait_arrivals(n0 + 1, T20) {
+                        return Err(mach("setup: command did not arrive"));
+                    }
+                    srv.gate.release_before(n0);
+                    srv.gate.release_after(n0);
+                    match read_frame(&mut s, T20) {
+                        Ok((RFrame::Simple(_), b)) => received[c].extend_from_slice(&b),
+                        o => return Err(mach(format!("setup: no OK for the first command: {:?}", o.map(|x| x.0)))),
+                    }
+                    s.shutdown(NetShutdown::Both).ok();
+                }
+                CState::AcceptFailed => {
+                    // replaced below by a connection whose accept fails; the signal follows at once
+                }
                 CState::HeldBefore | CState::HeldAfter | CState::Pipelined | CState::Streaming => {
                     let n0 = srv.gate.n_ops();
                     let mut b = set_req(c).encode();
@@ -1096,6 +1143,17 @@ pub fn c16_case(dir: &Path, states: &[CState], order: &[usize], at_limit: bool) 
             socks.push(s);
             if !srv.quiesce(e0) {
                 return Err(mach("setup: no quiescence"));
+            }
+        }
+        // connections whose accept fails: made right before the signal, which then finds the listener
+        // in (or just past) its back-off sleep
+        let mut aborted: Vec<TcpStream> = vec![];
+        for st in states.iter() {
+            if *st == CState::AcceptFailed {
+                if let Ok(mut x) = srv.connect_to_be_aborted() {
+                    let _ = x.write_all(&Req::Get(b"zz".to_vec()).encode());
+                    aborted.push(x);
+                }
             }
         }
         // fire the shutdown signal
@@ -1314,7 +1372,7 @@ pub fn c16_case(dir: &Path, states: &[CState], order: &[usize], at_limit: bool) 
 }
 
 fn c16_states(tier: Tier) -> Vec<CState> {
-    let mut v = vec![CState::Idle0, CState::Idle1, CState::HeldBefore, CState::HeldAfter, CState::Pipelined, CState::ReplyStalled, CState::Streaming];
+    let mut v = vec![CState::Idle0, CState::Idle1, CState::HeldBefore, CState::HeldAfter, CState::Pipelined, CState::ReplyStalled, CState::Streaming, CState::EndedBad, CState::EndedPanic, CState::EndedClosed, CState::AcceptFailed];
     let n = set_req(0).encode().len();
     let pts: Vec<usize> = if tier == Tier::Thorough { (1..n).collect() } else { (1..n).collect() };
     for j in pts {
@@ -1417,6 +1475,10 @@ fn parse_cstate(s: &str) -> Option<CState> {
         "ReplyStalled" => Some(CState::ReplyStalled),
         "Queued" => Some(CState::Queued),
         "Streaming" => Some(CState::Streaming),
+        "EndedBad" => Some(CState::EndedBad),
+        "EndedPanic" => Some(CState::EndedPanic),
+        "EndedClosed" => Some(CState::EndedClosed),
+        "AcceptFailed" => Some(CState::AcceptFailed),
         _ => s.strip_prefix("Prefix(").and_then(|r| r.trim_end_matches(')').parse().ok()).map(CState::Prefix),
     }
 }
@@ -1456,7 +1518,10 @@ fn reference_run(stream: &[u8], m: &mut Kv) -> (Vec<u8>, bool, bool) {
     }
 }
 
-pub fn c10_case(dir: &Path, stream: &[u8], ending: Ending, a_first: bool) -> Result<String, V> {
+/// `crowd`: the same hostile stream is first sent on this many other connections, one after the
+/// other, each closed by its client (more of them than the server has slots): whatever a hostile
+/// connection leaves behind adds up.
+pub fn c10_case(dir: &Path, stream: &[u8], ending: Ending, a_first: bool, crowd: usize) -> Result<String, V> {
     let srv = Srv::start(dir, &SrvCfg { max_connections: 8, max_file_size: 1 << 31, gated: false }).map_err(mach)?;
     let r = (|| -> Result<String, V> {
         let mut model = Kv::new();
@@ -1475,6 +1540,13 @@ pub fn c10_case(dir: &Path, stream: &[u8], ending: Ending, a_first: bool) -> Res
         };
         if !a_first {
             do_b_set(&mut b, &mut model)?;
+        }
+        for _ in 0..crowd {
+            let mut h = srv.connect().map_err(|e| ("listener-gone".to_string(), format!("a further hostile connection cannot connect: {}", e)))?;
+            let _ = h.write_all(stream);
+            let (replies, _, _) = reference_run(stream, &mut model);
+            let _ = read_n(&mut h, replies.len(), Duration::from_secs(2));
+            drop(h);
         }
         // the hostile connection
         let e0 = srv.epoch();
@@ -1720,10 +1792,15 @@ pub fn c10(job: &Job, sh: &mut Shard, t0: Instant) {
     let mut n = 0usize;
     for (i, (s, what)) in streams.iter().enumerate() {
         for (j, ending) in [Ending::Close, Ending::HalfClose, Ending::LeaveOpen].into_iter().enumerate() {
-            for (k, a_first) in [false, true].into_iter().enumerate() {
+            for (k, a_first, crowd) in [(0usize, false, 0usize), (1, true, 0), (0, false, 12)] {
                 // the position of the hostile connection relative to the control traffic is varied for
                 // the structured cases; exhaustive strings use "between SET and GET"
                 if a_first && what == "exhaustive string" {
+                    continue;
+                }
+                // a crowd of 12 hostile connections before it: structured cases (and the exhaustive
+                // strings of length <= 3), ended by close
+                if crowd > 0 && (ending != Ending::Close || (what == "exhaustive string" && s.len() > 3) || s.len() > 100_000) {
                     continue;
                 }
                 n += 1;
@@ -1736,17 +1813,17 @@ pub fn c10(job: &Job, sh: &mut Shard, t0: Instant) {
                     return;
                 }
                 let shown: Vec<u8> = s.iter().cloned().take(120).collect();
-                let case = json!({"engine": "net", "kind": "c10", "what": what, "len": s.len(), "bytes": if s.len() <= 4096 { json!(s) } else { json!(null) }, "shown": String::from_utf8_lossy(&shown), "ending": j, "a_first": k});
+                let case = json!({"engine": "net", "kind": "c10", "what": what, "len": s.len(), "bytes": if s.len() <= 4096 { json!(s) } else { json!(null) }, "shown": String::from_utf8_lossy(&shown), "ending": j, "a_first": k, "crowd": crowd});
                 job.progress(&case);
                 sh.evaluations += 1;
                 sh.transitions += 5;
                 sh.nontrivial.insert(fnv(s));
-                sh.states.insert(fnv(format!("{:?}{}{}", s, j, k).as_bytes()));
-                match c10_case(&dir, s, ending, a_first) {
-                    Ok(o) => sh.outcome(format!("{} / {:?}", o, ending)),
+                sh.states.insert(fnv(format!("{:?}{}{}{}", s, j, k, crowd).as_bytes()));
+                match c10_case(&dir, s, ending, a_first, crowd) {
+                    Ok(o) => sh.outcome(format!("{} / {:?}{}", o, ending, if crowd > 0 { " / crowd" } else { "" })),
                     Err((c, msg)) if c == "MACHINERY" => sh.machinery_errors.push(format!("C10 {} ({})", msg, what)),
-                    Err((c, msg)) => match c10_case(&dir, s, ending, a_first) {
-                        Err((c2, _)) if c2 == c => sh.violate(Violation { class: format!("C10:{}", c), msg: format!("{} | hostile stream: {} {:?} ({} bytes), ending {:?}, hostile connection first: {}", msg, what, String::from_utf8_lossy(&shown), s.len(), ending, a_first), case }),
+                    Err((c, msg)) => match c10_case(&dir, s, ending, a_first, crowd) {
+                        Err((c2, _)) if c2 == c => sh.violate(Violation { class: format!("C10:{}", c), msg: format!("{} | hostile stream: {} {:?} ({} bytes), ending {:?}, hostile connection first: {}, after {} other connections with the same stream", msg, what, String::from_utf8_lossy(&shown), s.len(), ending, a_first, crowd), case }),
                         other => sh.machinery_errors.push(format!("C10 violation {} not reproduced ({:?}): {} ({})", c, other.map_err(|e| e.0), msg, what)),
                     },
                 }
@@ -1795,10 +1872,10 @@ pub fn replay(prop: &str, case: &Value, dir: &Path) -> Vec<Violation> {
                 // long streams are regenerated from their description
                 let what = case["what"].as_str().unwrap_or("");
                 if let Some((s, _)) = c10_streams(Tier::Thorough).into_iter().find(|(_, w)| w == what) {
-                    push(c10_case(dir, &s, ending, case["a_first"].as_u64() == Some(1)));
+                    push(c10_case(dir, &s, ending, case["a_first"].as_u64() == Some(1), case["crowd"].as_u64().unwrap_or(0) as usize));
                 }
             } else {
-                push(c10_case(dir, &bytes, ending, case["a_first"].as_u64() == Some(1)));
+                push(c10_case(dir, &bytes, ending, case["a_first"].as_u64() == Some(1), case["crowd"].as_u64().unwrap_or(0) as usize));
             }
         }
         _ => {}
